@@ -56,14 +56,24 @@ def run(ctx, repo):
         params = [a.arg for a in fn.args.args]
         # key tuple
         key = keyvar = None
+        lossy = []
         for st in fn.body:
             if isinstance(st, ast.Assign) and isinstance(st.value, ast.Tuple) and isinstance(st.targets[0], ast.Name) \
-                    and all(isinstance(x, ast.Name) and x.id in params for x in st.value.elts):
-                key = [x.id for x in st.value.elts]
+                    and any(names_in(x) & set(params) for x in st.value.elts):
+                key = []
+                for x in st.value.elts:
+                    if isinstance(x, ast.Name) and x.id in params:
+                        key.append(x.id)
+                    elif names_in(x) & set(params):
+                        lossy.append((unparse(x), sorted(names_in(x) & set(params))))
                 keyvar = st.targets[0].id
                 break
         if key is None:
             raise AnalysisError('%s: memo key tuple not found' % fname)
+        for txt, ps in lossy:
+            ctx.finding('R2', '%s::%s::key component %s' % (UTILS, fname, txt), UTILS, fn.lineno,
+                        'the memo key of %s contains %s instead of the parameter %s itself: different values of %s share one cache entry, '
+                        'so the answer for one is served to the other' % (fname, txt, ps[0], ps[0]), 'the accepting value first, then a rejecting one')
         nonkey = set(params) - set(key)
         # cache used by this function
         stores = [c for c in ast.walk(fn) if isinstance(c, ast.Call) and call_name(c) == '_add_to_cache']
